@@ -53,17 +53,21 @@ class FacadePath:
         self.args = args        # by constructor parameter name
         self.path = path
         self.sa = sa
+        self.after_all = False
+        self.history = []
+        self.start = 0
 
     @property
     def faulted(self):
         return any(c and "raises" in d for d, c, _, _ in self.path.path)
 
     def events(self, kind):
-        return [(i, e) for i, e in enumerate(self.path.events) if e["kind"] == kind]
+        return [(i, e) for i, e in enumerate(self.path.events) if e["kind"] == kind and i >= self.start]
 
     def label(self):
         return "%s() on %s, kwargs=%s%s%s" % (self.method, self.setname, self.kwmode,
-                                              (" sa=%s" % self.sa) if self.sa is not None else "",
+                                              ((" sa=%s" % self.sa) if self.sa is not None else "")
+                                              + ((" after %s(every option)" % "(), ".join(self.history + [self.method])) if self.after_all else ""),
                                               (" [" + self.path.cond_str() + "]") if self.path.path else "")
 
 
@@ -80,7 +84,11 @@ def decode_stub(I, f, locs, node, frame):
     return marker
 
 
-def eval_facade(prog, method, fspec, setname, kwmode, check_condition="fork", transport="sgio", sa=None, other_error="never"):
+def eval_facade(prog, method, fspec, setname, kwmode, check_condition="fork", transport="sgio", sa=None, other_error="never",
+                after_all=False, history=()):
+    """after_all: the evaluated call is the last of a sequence on one facade -- first each (method, fspec, sa) of
+    ``history`` and then the same method, every one passing every optional argument (its own values); then the call
+    described by kwmode; only that last one is reported"""
     I = prog.I
     scsi_cls = prog.cls(SCSI_MOD, "SCSI")
     entry = refcdb.CDB[fspec["cls"]]
@@ -96,6 +104,21 @@ def eval_facade(prog, method, fspec, setname, kwmode, check_condition="fork", tr
             s = Instance(scsi_cls)
             s.attrs["device"] = dev
             s.attrs["_blocksize"] = Sym.param("blocksize", 32, nonzero=True)
+            if after_all:
+                for hm, hspec, hsa in list(history) + [(method, fspec, sa)]:
+                    hdoms = dict(refcdb.CDB[hspec["cls"]]["args"])
+                    kw0 = {}
+                    for fname, cname in hspec["params"]:
+                        if hsa is not None and cname == "service_action":
+                            kw0[fname] = hsa
+                        elif cname in hspec["extra"].get("pick", {}):
+                            kw0[fname] = hspec["extra"]["pick"][cname]
+                        else:
+                            kw0[fname] = pick("prev_" + cname, hdoms[cname]) if cname in hdoms else Sym.param("prev_" + cname, 8)
+                    for cname in hspec["kwargs"]:
+                        kw0[cname] = pick("prev_" + cname, hdoms[cname])
+                    I.call(I.get_attr(s, hm, None, _F("facade")), [], kw0, None, _F("facade %s (earlier call)" % hm))
+                I.event("second-call-starts")
             byctor = {}
             kw = {}
             for fname, cname in fspec["params"]:
@@ -120,7 +143,15 @@ def eval_facade(prog, method, fspec, setname, kwmode, check_condition="fork", tr
 
         for p in I.explore(thunk, max_paths=256):
             args = p.value[1] if p.returned else {}
-            out.append(FacadePath(method, setname, kwmode, args, p, sa))
+            fp = FacadePath(method, setname, kwmode, args, p, sa)
+            if after_all:
+                fp.after_all = True
+                fp.history = [h[0] for h in history]
+                marks = [i for i, e in enumerate(p.events) if e["kind"] == "second-call-starts"]
+                if not marks:
+                    continue        # the first call failed: that is the isolated evaluation's finding
+                fp.start = marks[0]
+            out.append(fp)
     finally:
         si.remove()
         I.stubs.pop("*.unmarshall_datain", None)
